@@ -601,16 +601,66 @@ theorem can_finish : ∀ (n : Nat) (s : State), s.size ≤ n → Good s →
         refine ⟨tid :: sched, s', ?_, hfin⟩
         rw [run, hst]; exact hr
 
+/-- there is no infinite run -/
+theorem no_infinite_run_of (f : Nat → State) (sch : Nat → Nat)
+    (h : ∀ n, step (f n) (sch n) = some (f (n + 1))) : False := by
+  have key : ∀ n, (f n).size + n ≤ (f 0).size := by
+    intro n
+    induction n with
+    | zero => simp
+    | succ n ih => have := step_size (h n); omega
+  have := key ((f 0).size + 1)
+  omega
+
+/-! ### the API table -/
+
+theorem withFMT_ranked (k : Nat) : Ranked (withFMT k) = true := by
+  rw [ranked_iff]
+  have h1 : sym [] getFMT = some [FMT] := by decide
+  have h2 : sym [FMT] tagsBrief = some [FMT] := by decide
+  have h3 : sym [FMT] [Instr.rel FMT] = some [] := by decide
+  have h4 : ∀ k, sym [FMT] (List.replicate k tagsBrief).flatten = some [FMT] := by
+    intro k
+    induction k with
+    | zero => simp [sym_nil]
+    | succ k ih =>
+      rw [List.replicate_succ, List.flatten_cons]
+      exact sym_append_some h2 ih
+  unfold withFMT
+  exact sym_append_some (sym_append_some h1 (h4 k)) h3
+
+/-- the lock programs C20 speaks about: the rows of `apiOps`, and a formatting call with any
+number of brief uses of the tag store -/
+def IsApiOp (p : List Instr) : Prop := (∃ name, (name, p) ∈ apiOps) ∨ ∃ k, p = withFMT k
+
+theorem apiOp_ranked (hall : allRanked = true) {p : List Instr} (h : IsApiOp p) :
+    Ranked p = true := by
+  rcases h with ⟨name, hm⟩ | ⟨k, rfl⟩
+  · unfold allRanked at hall
+    rw [List.all_eq_true] at hall
+    exact hall (name, p) hm
+  · exact withFMT_ranked k
+
 /-! ### mutual exclusion and the guarded formatting context -/
 
 /-- thread `tid` holds resource `r` -/
-def holds (s : State) (tid r : Nat) : Prop := ∃ t : Thread, s.threads[tid]? = some t ∧ r ∈ t.held
+def holds (s : State) (tid r : Nat) : Bool :=
+  match s.threads[tid]? with
+  | some t => t.held.contains r
+  | none => false
+
+theorem holds_iff {s : State} {tid r : Nat} :
+    holds s tid r = true ↔ ∃ t : Thread, s.threads[tid]? = some t ∧ r ∈ t.held := by
+  unfold holds
+  cases h : s.threads[tid]? with
+  | none => simp
+  | some t => simp
 
 /-- a resource is held by at most one thread -/
-theorem holds_unique {s : State} (g : Good s) {i j r : Nat} (hi : holds s i r)
-    (hj : holds s j r) : i = j := by
-  obtain ⟨t, ht, hr⟩ := hi
-  obtain ⟨u, hu, hr'⟩ := hj
+theorem holds_unique {s : State} (g : Good s) {i j r : Nat} (hi : holds s i r = true)
+    (hj : holds s j r = true) : i = j := by
+  obtain ⟨t, ht, hr⟩ := holds_iff.1 hi
+  obtain ⟨u, hu, hr'⟩ := holds_iff.1 hj
   have h1 := g.held_owned i t ht r hr
   have h2 := g.held_owned j u hu r hr'
   rw [h1] at h2; cases h2; rfl
@@ -624,24 +674,57 @@ hypothesis "every access to the context happens while FMT is held", built into `
 inductive Ev (C : Type) where
   | step (tid : Nat)
   | write (tid : Nat) (v : C)
+  deriving DecidableEq
 
-instance (s : State) (tid r : Nat) : Decidable (holds s tid r) :=
-  match h : s.threads[tid]? with
-  | none => isFalse (by intro ⟨t, ht, _⟩; rw [h] at ht; cases ht)
-  | some t =>
-    if hr : r ∈ t.held then isTrue ⟨t, h, hr⟩
-    else isFalse (by intro ⟨t', ht', hr'⟩; rw [h] at ht'; cases ht'; exact hr hr')
+def exec1 {C : Type} (guard : Nat) (sc : State × C) : Ev C → Option (State × C)
+  | .step tid =>
+      match step sc.1 tid with
+      | some s' => some (s', sc.2)
+      | none => none
+  | .write tid v => if holds sc.1 tid guard then some (sc.1, v) else none
 
 def exec {C : Type} (guard : Nat) : State × C → List (Ev C) → Option (State × C)
   | sc, [] => some sc
-  | sc, .step tid :: es =>
-      match step sc.1 tid with
-      | some s' => exec guard (s', sc.2) es
+  | sc, e :: es =>
+      match exec1 guard sc e with
+      | some sc' => exec guard sc' es
       | none => none
-  | sc, .write tid v :: es =>
-      if holds sc.1 tid guard then exec guard (sc.1, v) es else none
 
-/-- the lock-state part of an execution is a run -/
+/-- thread `i` holds the guard in every state the execution goes through -/
+def holdsAlong {C : Type} (guard i : Nat) : State × C → List (Ev C) → Bool
+  | sc, [] => holds sc.1 i guard
+  | sc, e :: es =>
+      holds sc.1 i guard &&
+        (match exec1 guard sc e with
+         | some sc' => holdsAlong guard i sc' es
+         | none => true)
+
+/-- the values of the context along the execution: what a read returns at each point -/
+def ctxTrace {C : Type} (guard : Nat) : State × C → List (Ev C) → List C
+  | sc, [] => [sc.2]
+  | sc, e :: es =>
+      sc.2 :: (match exec1 guard sc e with
+               | some sc' => ctxTrace guard sc' es
+               | none => [])
+
+theorem exec1_good {C : Type} {guard : Nat} {e : Ev C} {s s' : State} {c c' : C}
+    (g : Good s) (h : exec1 guard (s, c) e = some (s', c')) : Good s' := by
+  cases e with
+  | step tid =>
+    simp only [exec1] at h
+    cases hst : step s tid with
+    | none => simp [hst] at h
+    | some s1 =>
+      simp only [hst, Option.some.injEq, Prod.mk.injEq] at h
+      rw [← h.1]; exact good_step_of g hst
+  | write tid v =>
+    simp only [exec1] at h
+    by_cases hh : holds s tid guard = true
+    · simp only [hh, if_true, Option.some.injEq, Prod.mk.injEq] at h
+      rw [← h.1]; exact g
+    · simp [hh] at h
+
+/-- the lock-state part of an execution is a run: `Good` is preserved -/
 theorem exec_good {C : Type} {guard : Nat} : ∀ {es : List (Ev C)} {s : State} {c : C}
     {s' : State} {c' : C}, Good s → exec guard (s, c) es = some (s', c') → Good s' := by
   intro es
@@ -649,49 +732,397 @@ theorem exec_good {C : Type} {guard : Nat} : ∀ {es : List (Ev C)} {s : State} 
   | nil => intro s c s' c' g h; simp [exec] at h; rw [← h.1]; exact g
   | cons e es ih =>
     intro s c s' c' g h
-    cases e with
-    | step tid =>
-      simp only [exec] at h
-      cases hst : step s tid with
-      | none => simp [hst] at h
-      | some s1 => simp only [hst] at h; exact ih (good_step_of g hst) h
-    | write tid v =>
-      simp only [exec] at h
-      by_cases hh : holds s tid guard
-      · simp only [hh, if_true] at h; exact ih g h
-      · simp [hh] at h
+    simp only [exec] at h
+    cases h1 : exec1 guard (s, c) e with
+    | none => simp [h1] at h
+    | some sc1 =>
+      obtain ⟨s1, c1⟩ := sc1
+      simp only [h1] at h
+      exact ih (exec1_good g h1) h
 
-/-- While thread `i` holds the guard (in every state the execution goes through), every
-write is `i`'s own; so if `i` does not write, the value does not change. -/
-theorem exec_stable {C : Type} {guard i : Nat} : ∀ {es : List (Ev C)} {s : State} {c : C}
-    {s' : State} {c' : C}, Good s → exec guard (s, c) es = some (s', c') →
-    (∀ (es1 es2 : List (Ev C)) (s1 : State) (c1 : C), es = es1 ++ es2 →
-      exec guard (s, c) es1 = some (s1, c1) → holds s1 i guard) →
-    (∀ v, Ev.write i v ∉ es) → c' = c := by
+/-- an execution without writes does not change the value -/
+theorem exec_no_write {C : Type} {guard : Nat} : ∀ {es : List (Ev C)} {s : State} {c : C}
+    {s' : State} {c' : C}, exec guard (s, c) es = some (s', c') →
+    (∀ tid v, Ev.write tid v ∉ es) → c' = c := by
   intro es
   induction es with
-  | nil => intro s c s' c' _ h _ _; simp [exec] at h; exact h.2.symm
+  | nil => intro s c s' c' h _; simp [exec] at h; exact h.2.symm
   | cons e es ih =>
-    intro s c s' c' g h hhold hnw
-    have hnw' : ∀ v, Ev.write i v ∉ es := fun v hm => hnw v (List.mem_cons_of_mem _ hm)
-    cases e with
-    | step tid =>
-      simp only [exec] at h
-      cases hst : step s tid with
-      | none => simp [hst] at h
-      | some s1 =>
-        simp only [hst] at h
-        refine ih (good_step_of g hst) h ?_ hnw'
-        intro es1 es2 s2 c2 hsplit hex
-        refine hhold (.step tid :: es1) es2 s2 c2 (by rw [hsplit]; rfl) ?_
-        simp only [exec, hst]; exact hex
-    | write tid v =>
-      simp only [exec] at h
-      by_cases hh : holds s tid guard
-      · have hi : holds s i guard := hhold [] _ s c rfl (by simp [exec])
-        have : tid = i := holds_unique g hh hi
-        subst this
-        exact absurd List.mem_cons_self (hnw v)
-      · simp [hh] at h
+    intro s c s' c' h hnw
+    simp only [exec] at h
+    cases h1 : exec1 guard (s, c) e with
+    | none => simp [h1] at h
+    | some sc1 =>
+      obtain ⟨s1, c1⟩ := sc1
+      simp only [h1] at h
+      have hc : c1 = c := by
+        cases e with
+        | step tid =>
+          simp only [exec1] at h1
+          cases hst : step s tid with
+          | none => simp [hst] at h1
+          | some s2 => simp [hst] at h1; exact h1.2.symm
+        | write tid v => exact absurd List.mem_cons_self (hnw tid v)
+      subst hc
+      exact ih h fun tid v hm => hnw tid v (List.mem_cons_of_mem _ hm)
+
+/-- While thread `i` holds the guard, every write is `i`'s own: accesses of different
+threads never interleave inside one critical section. -/
+theorem writes_own {C : Type} {guard i : Nat} : ∀ {es : List (Ev C)} {s : State} {c : C}
+    {s' : State} {c' : C}, Good s → exec guard (s, c) es = some (s', c') →
+    holdsAlong guard i (s, c) es = true → ∀ tid v, Ev.write tid v ∈ es → tid = i := by
+  intro es
+  induction es with
+  | nil => intro s c s' c' _ _ _ tid v hm; cases hm
+  | cons e es ih =>
+    intro s c s' c' g h hh tid v hm
+    simp only [exec] at h
+    simp only [holdsAlong, Bool.and_eq_true] at hh
+    cases h1 : exec1 guard (s, c) e with
+    | none => simp [h1] at h
+    | some sc1 =>
+      obtain ⟨s1, c1⟩ := sc1
+      simp only [h1] at h hh
+      rcases List.mem_cons.1 hm with e1 | hm'
+      · subst e1
+        simp only [exec1] at h1
+        by_cases hw : holds s tid guard = true
+        · exact holds_unique g hw hh.1
+        · simp [hw] at h1
+      · exact ih (exec1_good g h1) h hh.2 tid v hm'
+
+/-- ... so if `i` does not write, every value observable during the critical section is
+the value at its beginning. -/
+theorem ctx_stable {C : Type} {guard i : Nat} : ∀ {es : List (Ev C)} {s : State} {c : C},
+    Good s → holdsAlong guard i (s, c) es = true → (∀ v, Ev.write i v ∉ es) →
+    ∀ x ∈ ctxTrace guard (s, c) es, x = c := by
+  intro es
+  induction es with
+  | nil => intro s c _ _ _ x hx; simpa [ctxTrace] using hx
+  | cons e es ih =>
+    intro s c g hh hnw x hx
+    simp only [holdsAlong, Bool.and_eq_true] at hh
+    simp only [ctxTrace, List.mem_cons] at hx
+    rcases hx with rfl | hx
+    · rfl
+    · cases h1 : exec1 guard (s, c) e with
+      | none => simp [h1] at hx
+      | some sc1 =>
+        obtain ⟨s1, c1⟩ := sc1
+        simp only [h1] at hx hh
+        have hc : c1 = c := by
+          cases e with
+          | step tid =>
+            simp only [exec1] at h1
+            cases hst : step s tid with
+            | none => simp [hst] at h1
+            | some s2 => simp [hst] at h1; exact h1.2.symm
+          | write tid v =>
+            exfalso
+            simp only [exec1] at h1
+            by_cases hw : holds s tid guard = true
+            · have : tid = i := holds_unique g hw hh.1
+              subst this
+              exact hnw v List.mem_cons_self
+            · simp [hw] at h1
+        subst hc
+        exact ih (exec1_good g h1) hh.2 (fun v hm => hnw v (List.mem_cons_of_mem _ hm)) x hx
+
+/-! ### everything held will be given up -/
+
+/-- what a thread holds and does not hold at the end is given up by an instruction of its
+remaining program: for a running once, its `done` is pending -/
+theorem held_pending : ∀ (pc : List Instr) (held out : List Nat) (r : Nat),
+    sym held pc = some out → r ∈ held → r ∉ out → Instr.rel r ∈ pc ∨ Instr.done r ∈ pc := by
+  intro pc
+  induction pc with
+  | nil =>
+    intro held out r h hr hro
+    rw [sym_nil] at h; cases h; exact absurd hr hro
+  | cons i rest ih =>
+    intro held out r h hr hro
+    have lift : (Instr.rel r ∈ rest ∨ Instr.done r ∈ rest) →
+        (Instr.rel r ∈ i :: rest ∨ Instr.done r ∈ i :: rest) := fun h =>
+      h.elim (fun h => Or.inl (List.mem_cons_of_mem _ h)) (fun h => Or.inr (List.mem_cons_of_mem _ h))
+    cases i with
+    | acq r' =>
+      exact lift (ih _ _ r (sym_acq.1 h).2 (List.mem_cons_of_mem _ hr) hro)
+    | rel r' =>
+      by_cases e : r = r'
+      · subst e; exact Or.inl List.mem_cons_self
+      · exact lift (ih _ _ r (sym_rel.1 h).2 (mem_drop.2 ⟨hr, e⟩) hro)
+    | done r' =>
+      by_cases e : r = r'
+      · subst e; exact Or.inr List.mem_cons_self
+      · exact lift (ih _ _ r (sym_done.1 h).2 (mem_drop.2 ⟨hr, e⟩) hro)
+    | once r' body =>
+      exact lift (ih _ _ r (sym_once.1 h).2.2 hr hro)
+
+/-! ### the lazy discipline: the store inside an initialiser never blocks -/
+
+theorem lazyOK_nil (o m : Nat) (k : Bool) : lazyOK o m k [] = true := by rw [lazyOK]
+
+theorem lazyOK_cons (o m : Nat) (k : Bool) (i : Instr) (rest : List Instr) :
+    lazyOK o m k (i :: rest) = (lazyOKI o m k i && lazyOK o m (k || finishes o i) rest) := by
+  rw [lazyOK]
+
+mutual
+theorem lazyOK_true : ∀ (o m : Nat) (p : List Instr) (k : Bool),
+    lazyOK o m k p = true → lazyOK o m true p = true
+  | _, _, [], _, _ => by rw [lazyOK]
+  | o, m, i :: rest, k, h => by
+    rw [lazyOK_cons, Bool.and_eq_true] at h
+    rw [lazyOK_cons, Bool.and_eq_true]
+    refine ⟨lazyOKI_true o m i k h.1, ?_⟩
+    rw [Bool.true_or]
+    exact lazyOK_true o m rest _ h.2
+theorem lazyOKI_true : ∀ (o m : Nat) (i : Instr) (k : Bool),
+    lazyOKI o m k i = true → lazyOKI o m true i = true
+  | _, _, .acq r, k, h => by
+    rw [lazyOKI, Bool.and_eq_true] at h
+    rw [lazyOKI, Bool.and_eq_true]
+    exact ⟨h.1, by simp⟩
+  | _, _, .rel _, _, _ => by rw [lazyOKI]
+  | _, _, .done _, _, _ => by rw [lazyOKI]
+  | o, m, .once r body, k, h => by
+    rw [lazyOKI, Bool.and_eq_true] at h
+    rw [lazyOKI, Bool.and_eq_true]
+    exact ⟨h.1, lazyOK_true o m body k h.2⟩
+end
+
+theorem lazyOK_mono {o m : Nat} {p : List Instr} {k k' : Bool} (hk : k = true → k' = true)
+    (h : lazyOK o m k p = true) : lazyOK o m k' p = true := by
+  cases k' with
+  | true => exact lazyOK_true o m p k h
+  | false =>
+    cases k with
+    | true => exact absurd (hk rfl) (by simp)
+    | false => exact h
+
+theorem lazyOK_append {o m : Nat} : ∀ (p q : List Instr) (k : Bool),
+    lazyOK o m k p = true → lazyOK o m k q = true → lazyOK o m k (p ++ q) = true := by
+  intro p
+  induction p with
+  | nil => intro q k _ hq; simpa using hq
+  | cons i p ih =>
+    intro q k hp hq
+    rw [lazyOK_cons, Bool.and_eq_true] at hp
+    rw [List.cons_append, lazyOK_cons, Bool.and_eq_true]
+    exact ⟨hp.1, ih q _ hp.2 (lazyOK_mono (by intro e; simp [e]) hq)⟩
+
+/-- the discipline of lazy `(o, m)` as a state invariant: with `k` = "`o` has completed",
+  * what is left of every program takes `m` only where `o` is known to have completed,
+  * whoever holds `m` does so after `o` completed,
+  * while somebody is the runner of `o`, `o` has not completed. -/
+structure LazyInv (o m : Nat) (s : State) : Prop where
+  prog_ok : ∀ (i : Nat) (t : Thread), s.threads[i]? = some t →
+    lazyOK o m (s.finished.contains o) t.pc = true
+  held_after : ∀ (i : Nat) (t : Thread), s.threads[i]? = some t → m ∈ t.held →
+    s.finished.contains o = true
+  running_before : ∀ u : Nat, s.owner o = some u → s.finished.contains o = false
+
+theorem lazyInv_init {o m : Nat} {progs : List (List Instr)}
+    (h : ∀ p ∈ progs, lazyOK o m false p = true) : LazyInv o m (init progs) := by
+  refine ⟨?_, ?_, ?_⟩
+  · intro i t ht
+    simp only [init, List.getElem?_map] at ht
+    cases hp : progs[i]? with
+    | none => simp [hp] at ht
+    | some p =>
+      simp [hp] at ht; subst ht
+      simpa [init] using h p (List.mem_of_getElem? hp)
+  · intro i t ht hm
+    simp only [init, List.getElem?_map] at ht
+    cases hp : progs[i]? with
+    | none => simp [hp] at ht
+    | some p => simp [hp] at ht; subst ht; simp at hm
+  · intro u hu; simp [init] at hu
+
+/-- one thread moves to `⟨pc', held'⟩`, the completed set does not shrink -/
+theorem lazyInv_update {o m : Nat} {s : State} {i : Nat} {t : Thread} {pc' : List Instr}
+    {held' : List Nat} (li : LazyInv o m s) (ht : s.threads[i]? = some t) (s' : State)
+    (hth : s'.threads = s.threads.set i ⟨pc', held'⟩)
+    (hk : s.finished.contains o = true → s'.finished.contains o = true)
+    (hpc : lazyOK o m (s'.finished.contains o) pc' = true)
+    (hheld : m ∈ held' → s'.finished.contains o = true)
+    (hrun : ∀ u, s'.owner o = some u → s'.finished.contains o = false) : LazyInv o m s' := by
+  refine ⟨?_, ?_, hrun⟩
+  · intro j u hu
+    rw [hth, getElem?_set' ht] at hu
+    by_cases hj : j = i
+    · simp [hj] at hu; subst hu; exact hpc
+    · simp [hj] at hu; exact lazyOK_mono hk (li.prog_ok j u hu)
+  · intro j u hu hm
+    rw [hth, getElem?_set' ht] at hu
+    by_cases hj : j = i
+    · simp [hj] at hu; subst hu; exact hheld hm
+    · simp [hj] at hu; exact hk (li.held_after j u hu hm)
+
+theorem lazyInv_step {o m : Nat} {s s' : State} {tid : Nat} (li : LazyInv o m s)
+    (h : step s tid = some s') : LazyInv o m s' := by
+  unfold step at h
+  cases ht : s.threads[tid]? with
+  | none => simp [ht] at h
+  | some t =>
+    have hp := li.prog_ok tid t ht
+    simp only [ht] at h
+    cases hpc : t.pc with
+    | nil => simp [hpc] at h
+    | cons i rest =>
+      rw [hpc, lazyOK_cons, Bool.and_eq_true] at hp
+      simp only [hpc] at h
+      cases i with
+      | acq r =>
+        simp only at h
+        cases ho : s.owner r with
+        | some u => simp [ho] at h
+        | none =>
+          simp only [ho, Option.some.injEq] at h; subst h
+          have h1 := hp.1
+          rw [lazyOKI, Bool.and_eq_true] at h1
+          have hro : r ≠ o := by simpa using h1.1
+          refine lazyInv_update li ht _ rfl (fun e => e) ?_ ?_ ?_
+          · simpa [finishes] using hp.2
+          · intro hm
+            rcases List.mem_cons.1 hm with e | hm
+            · subst e; simpa using h1.2
+            · exact li.held_after tid t ht hm
+          · intro u hu
+            have : s.owner o = some u := by
+              simpa [upd, Ne.symm hro] using hu
+            exact li.running_before u this
+      | rel r =>
+        simp only at h
+        by_cases ho : s.owner r = some tid
+        · simp only [ho, if_true, Option.some.injEq] at h; subst h
+          refine lazyInv_update li ht _ rfl (fun e => e) ?_ ?_ ?_
+          · simpa [finishes] using hp.2
+          · intro hm; exact li.held_after tid t ht (mem_drop.1 hm).1
+          · intro u hu
+            by_cases e : o = r
+            · simp [upd, e] at hu
+            · have : s.owner o = some u := by simpa [upd, e] using hu
+              exact li.running_before u this
+        · simp [ho] at h
+      | done r =>
+        simp only at h
+        by_cases ho : s.owner r = some tid
+        · simp only [ho, if_true, Option.some.injEq] at h; subst h
+          refine lazyInv_update li ht _ rfl ?_ ?_ ?_ ?_
+          · intro e; simp only [List.contains_cons]; simp [e]
+          · refine lazyOK_mono ?_ hp.2
+            intro e
+            simp only [List.contains_cons, Bool.or_eq_true] at e ⊢
+            rcases e with e | e
+            · exact Or.inr e
+            · simp only [finishes] at e
+              have : o = r := by simpa [eq_comm] using e
+              exact Or.inl (by simp [this])
+          · intro hm
+            have := li.held_after tid t ht (mem_drop.1 hm).1
+            simp only [List.contains_cons]; simp [this]
+          · intro u hu
+            by_cases e : o = r
+            · simp [upd, e] at hu
+            · have h2 : s.owner o = some u := by simpa [upd, e] using hu
+              have h3 := li.running_before u h2
+              simp only [List.contains_cons]
+              simp [h3, e]
+        · simp [ho] at h
+      | once r body =>
+        simp only at h
+        have h1 := hp.1
+        rw [lazyOKI, Bool.and_eq_true] at h1
+        by_cases hf : s.finished.contains r = true
+        · simp only [hf, if_true, Option.some.injEq] at h; subst h
+          refine lazyInv_update li ht _ rfl (fun e => e) ?_ ?_ ?_
+          · refine lazyOK_mono ?_ hp.2
+            intro e
+            simp only [Bool.or_eq_true] at e
+            rcases e with e | e
+            · exact e
+            · simp only [finishes] at e
+              have : r = o := by simpa using e
+              rw [← this]; exact hf
+          · intro hm; exact li.held_after tid t ht hm
+          · intro u hu; exact li.running_before u hu
+        · simp only [hf] at h
+          cases ho : s.owner r with
+          | some u => simp [ho] at h
+          | none =>
+            simp only [ho] at h
+            simp at h; subst h
+            have hrm : r ≠ m := by simpa using h1.1
+            refine lazyInv_update li ht _ rfl (fun e => e) ?_ ?_ ?_
+            · refine lazyOK_append _ _ _ h1.2 ?_
+              rw [lazyOK_cons, Bool.and_eq_true]
+              refine ⟨by rw [lazyOKI], ?_⟩
+              simpa [finishes] using hp.2
+            · intro hm
+              rcases List.mem_cons.1 hm with e | hm
+              · exact absurd e.symm hrm
+              · exact li.held_after tid t ht hm
+            · intro u hu
+              by_cases e : o = r
+              · subst e; simpa using hf
+              · have : s.owner o = some u := by simpa [upd, e] using hu
+                exact li.running_before u this
+
+theorem lazyInv_run {o m : Nat} : ∀ {sched : List Nat} {s s' : State}, LazyInv o m s →
+    run s sched = some s' → LazyInv o m s' := by
+  intro sched
+  induction sched with
+  | nil => intro s s' g h; simp [run] at h; subst h; exact g
+  | cons tid sched ih =>
+    intro s s' g h
+    rw [run] at h
+    cases hst : step s tid with
+    | none => simp [hst] at h
+    | some s1 => simp only [hst] at h; exact ih (lazyInv_step g hst) h
+
+/-- while the initialiser of a lazy runs, the lazy's data mutex is free -/
+theorem store_free {o m : Nat} {s : State} (g : Good s) (li : LazyInv o m s) {u : Nat}
+    (hrun : s.owner o = some u) : s.owner m = none := by
+  cases hm : s.owner m with
+  | none => rfl
+  | some w =>
+    obtain ⟨t, ht, hmem⟩ := g.owned_held m w hm
+    have h1 := li.held_after w t ht hmem
+    have h2 := li.running_before u hrun
+    rw [h1] at h2; cases h2
+
+theorem withFMT_lazy (k : Nat) : lazyDisciplined (withFMT k) = true := by
+  unfold lazyDisciplined
+  rw [List.all_eq_true]
+  intro l hl
+  have h1 : ∀ l ∈ lazies, lazyOK l.1 l.2 false getFMT = true := by decide
+  have h2 : ∀ l ∈ lazies, lazyOK l.1 l.2 false tagsBrief = true := by decide
+  have h3 : ∀ l ∈ lazies, lazyOK l.1 l.2 false [Instr.rel FMT] = true := by decide
+  have h4 : ∀ k, lazyOK l.1 l.2 false (List.replicate k tagsBrief).flatten = true := by
+    intro k
+    induction k with
+    | zero => simp [lazyOK_nil]
+    | succ k ih =>
+      rw [List.replicate_succ, List.flatten_cons]
+      exact lazyOK_append _ _ _ (h2 l hl) ih
+  unfold withFMT
+  exact lazyOK_append _ _ _ (lazyOK_append _ _ _ (h1 l hl) (h4 k)) (h3 l hl)
+
+theorem apiOp_lazy (hall : allLazy = true) {p : List Instr} (h : IsApiOp p) :
+    lazyDisciplined p = true := by
+  rcases h with ⟨name, hm⟩ | ⟨k, rfl⟩
+  · unfold allLazy at hall
+    rw [List.all_eq_true] at hall
+    exact hall (name, p) hm
+  · exact withFMT_lazy k
+
+theorem lazy_flatten {o m : Nat} {ops : List (List Instr)}
+    (h : ∀ p ∈ ops, lazyOK o m false p = true) : lazyOK o m false ops.flatten = true := by
+  induction ops with
+  | nil => simp [lazyOK_nil]
+  | cons p ops ih =>
+    rw [List.flatten_cons]
+    exact lazyOK_append _ _ _ (h p List.mem_cons_self)
+      (ih fun q hq => h q (List.mem_cons_of_mem _ hq))
 
 end EnvVerif.Conc
